@@ -226,7 +226,8 @@ inline Plan Gen(uint64_t seed)
          if (wl.pct(70)) p.push_back("step " + I(1 + wl.below(3)));
       }
       else if (k < 75) {const int v = 1 + (int) wl.below((uint32_t) victims); p.push_back("send " + I(v) + " " + (wl.oneIn(4) ? RmDataCmd(wl) : SetDataCmd(g, wl))); p.push_back("step " + I(1 + wl.below(2)));}
-      else if (k < 80) p.push_back("noread 0 " + I(wl.below(2)));
+      else if (k < 78) p.push_back("noread 0 " + I(wl.below(2)));
+      else if (k < 80) {if (wl.oneIn(3)) {p.push_back("flood 0 1"); p.push_back("send " + I(witness) + " ping " + I(++ping)); p.push_back("step " + I(1 + wl.below(3))); p.push_back("flood 0 0"); p.push_back("step 2");} else p.push_back("noread 0 " + I(wl.below(2)));}   // the hostile client floods the server for a few loop iterations
       else if ((k < 84)&&(!faultFree)) p.push_back("advance " + U(fl.oneIn(3) ? (1000000ULL * (1 + fl.below(5000))) : (1 + fl.below(900000))));
       else if (k < 86) p.push_back("idle");
       else if (k < 90) {const int v = 1 + (int) wl.below((uint32_t) victims); p.push_back("read " + I(v));}
